@@ -47,7 +47,22 @@ func (f *Frame) execCall(in *ssa.Call, st *State) Val {
 // doCall: the call itself, then copy-out for slices that view a snapshot of an array stored inside a struct or local
 // (`scc.TraceID[:]`): what the callee left in the snapshot is stored back into the field, so writes through the slice are seen.
 func (f *Frame) doCall(instr ssa.Instruction, cc *ssa.CallCommon, st *State, rt types.Type, pos token.Pos) Val {
+	mark := len(f.e.matNew)
 	r := f.doCallInner(instr, cc, st, rt, pos)
+	// copy-out for interior pointers materialised for this call, whatever kind of callee it was (contract, inlined body,
+	// library model, unknown function): what the callee left in the copy is the new content of the real location
+	locModel := false
+	if callee := cc.StaticCallee(); callee != nil {
+		// sync and sync/atomic models work on the real location directly: the copy is stale and must not be copied back
+		cs := callee.String()
+		locModel = strings.HasPrefix(cs, "(*sync.") || strings.HasPrefix(cs, "(*sync/atomic.") || strings.HasPrefix(cs, "sync/atomic.")
+	}
+	if !st.dead && !locModel {
+		for _, m := range f.e.matNew[mark:] {
+			f.e.store(st, m.loc, fmt.Sprintf("(select %s %s)", f.e.getHeapP(st, m.sort), m.id))
+		}
+	}
+	f.e.matNew = f.e.matNew[:mark]
 	if st.dead || len(f.sliceSnap) == 0 {
 		return r
 	}
@@ -1087,14 +1102,20 @@ func (e *Engine) materializePtr(f *Frame, st *State, v Val) Val {
 	id := e.alloc(st)
 	srt := e.sortOf(p.Elem())
 	st.heapP[srt] = e.define("hp", e.heapPSort(srt), fmt.Sprintf("(store %s %s %s)", e.getHeapP(st, srt), id, e.load(st, v.Loc)))
-	e.note("interior pointer passed as a value in %s: the callee sees a snapshot of the pointee (writes through it are not reflected)", funcKey(f.fn))
+	e.note("interior pointer passed as a value in %s: the callee works on a copy of the pointee which is copied back after the call (sound when the callee reaches the object only through that pointer)", funcKey(f.fn))
 	nv := v
 	nv.S = id
 	if e.matBack == nil {
 		e.matBack = map[string]*Loc{}
 	}
 	e.matBack[id] = v.Loc
+	e.matNew = append(e.matNew, matEntry{id: id, sort: srt, loc: v.Loc})
 	return nv
+}
+
+type matEntry struct {
+	id, sort string
+	loc      *Loc
 }
 
 // writeBack: copy-in/copy-out for interior pointers handed to a callee with a contract: what the callee left in the
